@@ -121,8 +121,8 @@ def go_tables(models, prog, gen_dir, pkgs):
     lines.append("}")
     for ent, e in entries:
         lines.append("\nfunc %s() { verifRoundTrip(verifModel[%s], verifBound(), 1+verifBound()/2) }" % (ent, json.dumps(e["qual"])))
-    imp = "".join('\nimport %s "verifgen/%s"\n' % (p, p) for p in sorted(imports))
-    return imp + "\n".join(lines) + "\n", [e for e, _ in entries], problems
+    imp = "".join('\t%s "verifgen/%s"\n' % (p, p) for p in sorted(imports))
+    return "\n".join(lines) + "\n", [e for e, _ in entries], problems, imp
 
 
 def typecheck(mod, pkg):
@@ -168,7 +168,7 @@ def run(prop, spec, tier, scratch, known, vcheck):
                                   "fingerprint": "c02|%s|typecheck" % prog, "detail": complaint, "vector": [], "program": prog})
             continue
         try:
-            tables, entries, problems = go_tables(models, prog, gdir, pkgs)
+            tables, entries, problems, extra_imports = go_tables(models, prog, gdir, pkgs)
         except Exception as e:
             inconclusive.append("oracle model for %s: %s" % (prog, e))
             continue
@@ -176,7 +176,7 @@ def run(prop, spec, tier, scratch, known, vcheck):
         hdir = os.path.join(scratch, "harness_" + pkg)
         os.makedirs(hdir)
         genpipe.sync_rt(VERIF, hdir, pkg)
-        open(os.path.join(hdir, "zz_verif_c02.go"), "w").write(tmpl.replace("PKGNAME", pkg).replace("MODEL_TABLES", tables))
+        open(os.path.join(hdir, "zz_verif_c02.go"), "w").write(tmpl.replace("PKGNAME", pkg).replace("MODEL_TABLES", tables).replace("EXTRA_IMPORTS", extra_imports))
         group = {"dir": gdir, "overlay": hdir}
         bound = spec["elems"][tier]
         big = [e for e, ent in zip(entries, struct_entries(models, prog)) if len(ent["fields"]) > 6]
